@@ -148,3 +148,33 @@ def ham_programs(seed, tids, quick=True):
                 prog["mu"] = [60] * len(sites)
             progs.append(prog)
     return progs
+
+
+def builder_programs(seed, n, tids):
+    """The shipped builders with direct arguments: every symmetry they accept, scalar and per-site U / mu,
+    coordinations 1-4 (coefficients are multiples of 12 so that the divisions are exact)."""
+    progs = []
+    for i in range(n):
+        rng = gen.rng_for(seed, "lo-builders", i)
+        calls = []
+        for sym in ("Z2", "U1", "Z2Z2", "U1U1"):
+            z = [rng.randint(1, 4), rng.randint(1, 4)]
+            pair = rng.random() < 0.6
+            U = [12 * rng.randint(0, 3), 12 * rng.randint(0, 3)]
+            mu = [12 * rng.randint(-2, 2), 12 * rng.randint(-2, 2)]
+            if not pair:
+                U, mu = [U[0], U[0]], [mu[0], mu[0]]
+            calls.append({"name": "hubbard", "sym": sym, "t": rng.choice([1, 2, -1, 3]), "U": U, "mu": mu, "z": z, "pair_args": pair})
+            calls.append({"name": "number_spinful", "sym": sym})
+            calls.append({"name": "spin", "sym": sym, "scale": 2})
+        for sym in ("Z2", "U1"):
+            z = [rng.randint(1, 4), rng.randint(1, 4)]
+            pair = rng.random() < 0.6
+            mu = [12 * rng.randint(-2, 2), 12 * rng.randint(-2, 2)]
+            if not pair:
+                mu = [mu[0], mu[0]]
+            calls.append({"name": "hubbard_spinless", "sym": sym, "t": rng.choice([1, 2, -1]), "V": rng.randint(0, 5), "mu": mu, "z": z,
+                          "pair_args": pair})
+            calls.append({"name": "number_spinless", "sym": sym})
+        progs.append({"driver": "localbuilders", "tid": tids(), "calls": calls})
+    return progs
